@@ -53,6 +53,11 @@ EXPLANATION = (
     "R-tr-port-skip -- gen_mapped_ports leaves out clk iff not has_clk and reset iff not has_reset (4 flag combinations x 3 ports); "
     "R-tr-dims-elem -- a dimension list and a type taken from one array and handed on together describe that array "
     "(get_sub_dtype with all dimensions; get_next_dim_type peels one), evaluated on a [2][3] array; "
+    "R-tr-dims-recursion -- a generator that peels one array dimension per recursion level reaches its leaf once per index tuple "
+    "(interpreted on [2,3] and [3,2]); R-tr-sections -- every non-empty section handed to rtlir_tr_component appears exactly once in "
+    "the module text, for every empty / non-empty combination tried; R-tr-rtype-eq also interprets the admission test of "
+    "_handle_Array on lists of 1..4 elements with the odd element at every position; R-tr-loop-state also refuses an accumulator "
+    "created before a loop, grown and handed on inside it and never read after it; "
     "R-layout-agree -- struct literals / concat / struct construction put the first field (argument) most significant and "
     "packed-array element 0 least significant. "
     "NOT decided: cycle-for-cycle behavioural equivalence of arbitrary designs, syntactic validity of arbitrary emitted text "
@@ -70,12 +75,14 @@ RULES = [partial(f, backend=BACKEND) for f in (
     T.rule_hooks, T.rule_handlers, T.rule_optable, T.rule_assign, T.rule_slice, T.rule_width_cast, T.rule_conn,
     T.rule_sigexpr, T.rule_for, T.rule_modname, T.rule_constcache, T.rule_layout, T.rule_index_queue, T.rule_dedup_scope,
     T.rule_loop_state, T.rule_memo_scope, T.rule_ident_intact, T.rule_name_scope, T.rule_dims_order, T.rule_const_inline,
-    T.rule_ifc_source, T.rule_range_args, T.rule_block_state, T.rule_rtype_eq, T.rule_port_skip, T.rule_dims_elem)]
+    T.rule_ifc_source, T.rule_range_args, T.rule_block_state, T.rule_rtype_eq, T.rule_port_skip, T.rule_dims_elem, T.rule_dims_recursion,
+    T.rule_component_sections)]
 for _f, _g in zip(RULES, (T.rule_hooks, T.rule_handlers, T.rule_optable, T.rule_assign, T.rule_slice, T.rule_width_cast,
                           T.rule_conn, T.rule_sigexpr, T.rule_for, T.rule_modname, T.rule_constcache, T.rule_layout,
                           T.rule_index_queue, T.rule_dedup_scope, T.rule_loop_state, T.rule_memo_scope, T.rule_ident_intact,
                           T.rule_name_scope, T.rule_dims_order, T.rule_const_inline, T.rule_ifc_source, T.rule_range_args,
-                          T.rule_block_state, T.rule_rtype_eq, T.rule_port_skip, T.rule_dims_elem)):
+                          T.rule_block_state, T.rule_rtype_eq, T.rule_port_skip, T.rule_dims_elem, T.rule_dims_recursion,
+                          T.rule_component_sections)):
     _f.__name__ = _g.__name__
 
 
@@ -121,6 +128,20 @@ def _m(name, file, old, new, rule=None, count=1):
 
 
 MUTANTS = [
+    # round-8 kinds: aliasing of shared mutable state / loop-control slips / slips in generated text / key-identity collisions
+    _m('array-admission-compares-second-element-only', T.RTYPE, "    for x in obj[1:]:\n      assert self.get_rtlir(x) == ref_type, \\\n", "    for x in obj[1:2]:\n      assert self.get_rtlir(x) == ref_type, \\\n", 'R-tr-rtype-eq'),
+    _m('array-admission-skips-second-element', T.RTYPE, "    for x in obj[1:]:\n      assert self.get_rtlir(x) == ref_type, \\\n", "    for x in obj[2:]:\n      assert self.get_rtlir(x) == ref_type, \\\n", 'R-tr-rtype-eq'),
+    _m('array-admission-stops-after-first-comparison', T.RTYPE, "    for x in obj[1:]:\n      assert self.get_rtlir(x) == ref_type, \\\n             f'all elements of array {obj} must have the same type {repr(ref_type)}!'\n",
+       "    for x in obj[1:]:\n      assert self.get_rtlir(x) == ref_type, \\\n             f'all elements of array {obj} must have the same type {repr(ref_type)}!'\n      break\n", 'R-tr-rtype-eq'),
+    dict(name='ifc-ports-accumulator-hoisted-out-of-the-interface-loop', rule='R-tr-loop-state', edits=[
+        dict(file=T.G_S4, old="        ports = []\n        all_ifc_ports = ifc_port_rtype.get_all_properties_packed()", new="        all_ifc_ports = ifc_port_rtype.get_all_properties_packed()", count=1),
+        dict(file=T.G_S4, old="      # Translate interfaces of the subcomponent\n", new="      # Translate interfaces of the subcomponent\n      ports = []\n", count=1)]),
+    _m('sv-body-omits-temporaries', T.SV_TR, "        body = const_decls + fvar_decls + wire_decls + subcomp_decls \\\n             + tmpvar_decls + upblk_decls", "        body = const_decls + fvar_decls + wire_decls + subcomp_decls \\\n             + upblk_decls", 'R-tr-sections'),
+    _m('sv-connections-replace-the-body', T.SV_TR, "          connections = '\\n' + connections\n        body += connections", "          connections = '\\n' + connections\n        body = connections", 'R-tr-sections'),
+    _m('sv-port-separator-overwrites-ports', T.SV_TR, "          if port_decls and ifc_decls:\n            port_decls += ',\\n'\n          ifc_decls += '\\n'\n        ports = ports_template.format(**locals())\n\n        const_decls",
+       "          if port_decls and ifc_decls:\n            port_decls = ',\\n'\n          ifc_decls += '\\n'\n        ports = ports_template.format(**locals())\n\n        const_decls", 'R-tr-sections'),
+    _m('sv-array-param-peels-last-dimension', VS1, "        ret.append( s.gen_array_param( n_dim[1:], dtype, array[idx] ) )", "        ret.append( s.gen_array_param( n_dim[:-1], dtype, array[idx] ) )", 'R-tr-dims-recursion'),
+    _m('sv-packed-array-literal-peels-last-dimension', VS2, "          ret.append( _gen_packed_array( dtype, n_dim[1:], array[i] ) )", "          ret.append( _gen_packed_array( dtype, n_dim[:-1], array[i] ) )", 'R-tr-dims-recursion'),
     # round-7 kinds: boundary slip / wrong one of two similar names / and-or-not slip / wrong similar API
     _m('interface-view-eq-name-only', T.RTYPE, "    return isinstance(other, InterfaceView) and s.name == other.name and \\\n           s.properties == other.properties", "    return isinstance(other, InterfaceView) and s.name == other.name", 'R-tr-rtype-eq'),
     _m('interface-view-eq-name-or-ports', T.RTYPE, "    return isinstance(other, InterfaceView) and s.name == other.name and \\\n           s.properties == other.properties", "    return isinstance(other, InterfaceView) and s.name == other.name or \\\n           s.properties == other.properties", 'R-tr-rtype-eq'),
@@ -379,6 +400,15 @@ MUTANTS = [
 ]
 
 EQUIV = [
+    _m('array-admission-as-all', T.RTYPE, "    for x in obj[1:]:\n      assert self.get_rtlir(x) == ref_type, \\\n             f'all elements of array {obj} must have the same type {repr(ref_type)}!'\n",
+       "    assert all( self.get_rtlir(x) == ref_type for x in obj[1:] ), \\\n             f'all elements of array {obj} must have the same type {repr(ref_type)}!'\n"),
+    _m('array-admission-loop-over-all-elements', T.RTYPE, "    for x in obj[1:]:\n      assert self.get_rtlir(x) == ref_type, \\\n", "    for x in obj:\n      assert self.get_rtlir(x) == ref_type, \\\n"),
+    _m('ifc-ports-accumulator-created-by-list-call', T.G_S4, "        ports = []\n        all_ifc_ports", "        ports = list()\n        all_ifc_ports"),
+    dict(name='ifc-ports-accumulator-created-first-in-the-loop-body', edits=[
+        dict(file=T.G_S4, old="        ports = []\n        all_ifc_ports = ifc_port_rtype.get_all_properties_packed()", new="        all_ifc_ports = ifc_port_rtype.get_all_properties_packed()", count=1),
+        dict(file=T.G_S4, old="      for ifc_port_id, _ifc_port_rtype in c_rtype.get_ifc_views_packed():\n", new="      for ifc_port_id, _ifc_port_rtype in c_rtype.get_ifc_views_packed():\n        ports = []\n", count=1)]),
+    _m('sv-body-assembled-by-join', T.SV_TR, "        body = const_decls + fvar_decls + wire_decls + subcomp_decls \\\n             + tmpvar_decls + upblk_decls", "        body = ''.join( [ const_decls, fvar_decls, wire_decls, subcomp_decls, tmpvar_decls, upblk_decls ] )"),
+    _m('sv-packed-array-literal-rest-in-a-local', VS2, "          ret.append( _gen_packed_array( dtype, n_dim[1:], array[i] ) )", "          rest = n_dim[1:]\n          ret.append( _gen_packed_array( dtype, rest, array[i] ) )"),
     _m('component-eq-compares-the-lists', T.RTYPE, "    return (len(u)==len(v)) and all(_u == _v for _u, _v in zip(u, v))", "    return list(u) == list(v)"),
     _m('component-eq-early-return-on-length', T.RTYPE, "    return (len(u)==len(v)) and all(_u == _v for _u, _v in zip(u, v))", "    if len(u) != len(v):\n      return False\n    for _u, _v in zip(u, v):\n      if _u != _v:\n        return False\n    return True"),
     _m('array-eq-single-expression', T.RTYPE, "    if not isinstance( other, Array ): return False\n    if s.dim_sizes != other.dim_sizes: return False\n    return s.sub_type == other.sub_type", "    return isinstance( other, Array ) and s.dim_sizes == other.dim_sizes and s.sub_type == other.sub_type"),
